@@ -60,6 +60,10 @@ type Sub struct {
 	Matrix [][]PairRec     `json:"matrix"`
 	Marks  json.RawMessage `json:"marks"`
 	Bases  json.RawMessage `json:"bases"`
+	// Recs (kind "curs", GPOS 3): [[glyph, {entry: anchor|null, exit: anchor|null}]]; Short makes the
+	// record array shorter than the coverage table by that many entries (a shape the reader never
+	// delivers: it prunes the coverage table), only used with readers' output, see C07
+	Recs json.RawMessage `json:"recs"`
 }
 
 // PairRec is one pair adjustment.
@@ -549,6 +553,36 @@ func buildSub(st *Sub) ([]gtab.Subtable, error) {
 			p[glyph.Pair{Left: glyph.ID(e.K[0]), Right: glyph.ID(e.K[1])}] = &gtab.PairAdjust{First: e.V.First.rec(), Second: e.V.Second.rec()}
 		}
 		return []gtab.Subtable{p}, nil
+	case "curs":
+		type an struct {
+			X int `json:"x"`
+			Y int `json:"y"`
+		}
+		type ee struct {
+			Entry *an `json:"entry"`
+			Exit  *an `json:"exit"`
+		}
+		recs, err := pairs[ee](st.Recs)
+		if err != nil {
+			return nil, err
+		}
+		var keys []int
+		for _, p := range recs {
+			keys = append(keys, p.K)
+		}
+		cov := table(keys)
+		arr := make([]gtab.EntryExitRecord, len(cov))
+		for _, p := range recs {
+			var r gtab.EntryExitRecord
+			if p.V.Entry != nil {
+				r.Entry = anchor.Table{X: funit.Int16(p.V.Entry.X), Y: funit.Int16(p.V.Entry.Y)}
+			}
+			if p.V.Exit != nil {
+				r.Exit = anchor.Table{X: funit.Int16(p.V.Exit.X), Y: funit.Int16(p.V.Exit.Y)}
+			}
+			arr[cov[glyph.ID(p.K)]] = r
+		}
+		return []gtab.Subtable{&gtab.Gpos3_1{Cov: cov, Records: arr}}, nil
 	case "mbase", "mmark":
 		type mk struct {
 			Cls int `json:"cls"`
@@ -601,7 +635,7 @@ func buildSub(st *Sub) ([]gtab.Subtable, error) {
 }
 
 var gsubType = map[string]uint16{"single": 1, "multi": 2, "alt": 3, "lig": 4, "ctx": 5, "rev": 8}
-var gposType = map[string]uint16{"spos": 1, "pair": 2, "mbase": 4, "mmark": 6, "ctx": 7}
+var gposType = map[string]uint16{"spos": 1, "pair": 2, "curs": 3, "mbase": 4, "mmark": 6, "ctx": 7}
 
 // Build constructs the real tables of a case.
 func Build(c *Case) (*Built, error) {
